@@ -15,11 +15,20 @@ from .doc_replay import abst, conc
 warnings.simplefilter("ignore")
 
 
-def build(table):
+def build(table, lazy=0):
+    """lazy = k > 0: the solutions come from a generator (as they do from Graph.query()) and the first k - 1 of them have been read
+    by iteration before the result is handed on"""
     r = Result("SELECT")
     r.vars = [Variable(v) for v in table["vars"]]
     bmap = {}
-    r.bindings = [{Variable(k): conc(dict(v, keep=True), bmap) for k, v in row.items()} for row in table["rows"]]
+    rows = [{Variable(k): conc(dict(v, keep=True), bmap) for k, v in row.items()} for row in table["rows"]]
+    if not lazy:
+        r.bindings = rows
+        return r
+    r.bindings = (x for x in rows)
+    for i, _ in enumerate(r):
+        if i + 1 >= lazy - 1:
+            break
     return r
 
 
@@ -191,7 +200,7 @@ def replay(cfg, events):
         try:
             if op == "rt":
                 e["stage"] = "serialize"
-                data = build(e["table"]).serialize(format=e["fmt"])
+                data = build(e["table"], e.get("lazy", 0)).serialize(format=e["fmt"])
                 e["stage"] = "parse"
                 back = Result.parse(io.BytesIO(data if isinstance(data, bytes) else data.encode("utf-8")), format=e["fmt"])
                 e["after"] = dump(back)
@@ -218,7 +227,7 @@ def replay(cfg, events):
                 e["after"] = dump(back)
             elif op == "csv":
                 e["stage"] = "serialize"
-                data = build(e["table"]).serialize(format="csv")
+                data = build(e["table"], e.get("lazy", 0)).serialize(format="csv")
                 text = data.decode("utf-8") if isinstance(data, bytes) else data
                 e["text"] = text[:500]
                 rows = list(csv.reader(io.StringIO(text, newline="")))
